@@ -126,6 +126,10 @@ func (w *c05W) violate(rule, class, format string, a ...any) {
 	}
 	w.viol = &Violation{Property: "C05", Rule: rule, Sig: class + "; " + w.backend + " back end", Msg: fmt.Sprintf(format, a...)}
 	w.r.Logf("VIOLATION %s: %s", rule, w.viol.Msg)
+	if os.Getenv("SIM_STACKS_ON_VIOLATION") == "1" {
+		buf := make([]byte, 4<<20)
+		fmt.Fprintf(os.Stderr, "STACKS AT DETECTION %s\n%s\n", rule, buf[:runtime.Stack(buf, true)])
+	}
 }
 
 func (w *c05W) op(f string, a ...any) {
